@@ -205,7 +205,7 @@ impl Monitor for C04 {
         J::obj().with("random_patterns_this_shard", J::u(n))
     }
     fn corpus(&self) -> Vec<Case> {
-        raw(&[("a", "", ""), ("a", "", "a"), ("a", "", "aa"), ("a", "", "bab"), ("ab", "", "abab"), ("\u{10400}", "", "a\u{10400}\u{10400}b"), ("b+", "", "abbbabb"), ("a\u{301}", "", "a\u{301}a")])
+        raw(&[("(?:a|ab){0,2}c", "", "abac"), ("x(?:a|ab){0,2}c", "", "xabac"), ("(?:\\d|\\d\\d-){0,2};", "i", "12-3; 12-3;"), ("a", "", ""), ("a", "", "a"), ("a", "", "aa"), ("a", "", "bab"), ("ab", "", "abab"), ("\u{10400}", "", "a\u{10400}\u{10400}b"), ("b+", "", "abbbabb"), ("a\u{301}", "", "a\u{301}a")])
     }
 }
 
@@ -392,6 +392,22 @@ impl Monitor for C16 {
             }
         }
         desc.set("xsd_literal_anchor_patterns_this_shard", J::u(nx));
+        // (e) a hundred and more optional groups and a three-digit back-reference: nullable only if
+        // the reference is read with all its digits
+        if w.shard == 0 {
+            for ng in [99usize, 100, 101, 110] {
+                for k in [ng, ng - 1, 100.min(ng), 10, 1] {
+                    let mut p = String::new();
+                    for _ in 0..ng {
+                        p.push_str("(a)?");
+                    }
+                    p.push_str(&format!("\\{}", k));
+                    for inp in ["", "x0y", "a"] {
+                        emit(Case::raw(&p, "", inp));
+                    }
+                }
+            }
+        }
         // (c) literal patterns (flag q, also combined with i m s x) incl. the empty literal, and the empty pattern
         if w.shard == 0 {
             for p in ["", "a", "(", "a*", " ", "^", "$", "()", "\u{10400}"] {
@@ -467,6 +483,18 @@ impl Monitor for C13 {
             match api(engine::is_match(&re, &c.input), "is_match") {
                 Ok(true) => {}
                 Ok(false) => return Outcome::Violated(vec![Finding::new("literal_not_found_in_input_containing_it", "false".to_string(), "true")]),
+                Err(o) => return o,
+            }
+            // replace_all sees the same occurrences: the input contains the literal, so the result differs
+            // from the input; on the literal itself the result is the replacement
+            match api(engine::replace_all(&re, &c.pattern, "\u{1}"), "replace_all") {
+                Ok(Ok(r)) if r == "\u{1}" => {}
+                Ok(other) => return Outcome::Violated(vec![Finding::new("literal_does_not_match_itself", format!("replace_all(pattern) = {:?}", other), "the replacement")]),
+                Err(o) => return o,
+            }
+            match api(engine::replace_all(&re, &c.input, "\u{1}"), "replace_all") {
+                Ok(Ok(r)) if r.contains('\u{1}') => {}
+                Ok(other) => return Outcome::Violated(vec![Finding::new("literal_not_found_in_input_containing_it", format!("replace_all = {:?}", other), "at least one occurrence replaced")]),
                 Err(o) => return o,
             }
             obs.count("literal_self_match_checked");
